@@ -25,7 +25,8 @@ RULE = ('Paired sessions: world A and world B share the configuration and all ma
         'first or shuffled; in a quarter the handler is given a second, differently priced source first whose files '
         'end 0-9 days after T (subject to the same rewriting). A is run twice '
         'first; configurations where A != A\' are skipped and counted (that is C18\'s subject). Non-trivial = B '
-        'differs from A after T, A has >= 1 fill at or before T, >= 1 rebalance after T, and T is not the last day.')
+        'differs from A after T, A has >= 1 fill at or before T, >= 1 rebalance after T, and T is not the last day.'
+        " Round-5 reach: alpha kinds `cycle` (rotating weight vectors) and `hist` (weights from the data source's public range query up to the rebalance instant); rewrite mode `wild` (the whole future trades at x0.01 .. x100).")
 ASSUMPTIONS = [
     'well-formed CSV files; header-only files are not in the domain',
     'sessions of 5-60 days, <= 5 symbols, signal lookbacks <= 9',
@@ -41,8 +42,12 @@ def make_b(rows, T, mode, seed):
     if not fut:
         return list(rows), False
     new = []
+    level = 10.0 ** rnd.choice([-2, -1.5, 1.5, 2])        # 'wild': the whole future trades at another order of magnitude
     for r in fut:
         if mode == 'delete' or (mode == 'mix' and rnd.random() < 0.5):
+            continue
+        if mode == 'wild':
+            new.append(r[:3] + [None if x is None else round(x * level * rnd.uniform(0.97, 1.03), 4) for x in r[3:]])
             continue
         new.append(r[:3] + [None if x is None else round(x * rnd.uniform(0.3, 3.0), 4) for x in r[3:]])
     out = keep + new
@@ -151,7 +156,8 @@ def run_case(case):
     d = session.first_diff(da, db)
     if d:
         raise Violation('results dated <= %s changed when only market data after that day was %s: %s' % (
-            T, {'rewrite': 'rewritten', 'delete': 'deleted', 'mix': 'rewritten/deleted'}[case['mode']], d))
+            T, {'rewrite': 'rewritten', 'delete': 'deleted', 'mix': 'rewritten/deleted',
+                'wild': 'rewritten by orders of magnitude'}[case['mode']], d))
     cls = list(case.get('labels', []))
     cls += [cfg['rebalance'], cfg['alpha']['kind'], cfg['universe']['kind'], 'future_' + case['mode']]
     fills_before = sum(1 for f in ra.fills if f[0] <= Tend)
@@ -195,7 +201,7 @@ def cases(draw):
     cfg, lab = draw(sessgen.full_config(names, start, end))
     cut = d0 + D.timedelta(days=draw(st.one_of(st.integers(n // 4, (3 * n) // 4), st.integers(0, n))))
     return {'cfg': cfg, 'market': mk, 'cut': [cut.year, cut.month, cut.day],
-            'mode': draw(st.sampled_from(['rewrite', 'rewrite', 'delete', 'mix'])), 'seed': draw(st.integers(0, 10 ** 6)),
+            'mode': draw(st.sampled_from(['rewrite', 'rewrite', 'delete', 'mix', 'wild'])), 'seed': draw(st.integers(0, 10 ** 6)),
             'labels': labels + lab, 'reuse_handler': draw(st.sampled_from([False, False, True])),
             'file_order': draw(st.sampled_from(['sorted', 'sorted', 'reversed', 'shuffled'])),
             'second_source': draw(st.sampled_from([None, None, None, 0, 2, 9]))}
